@@ -296,6 +296,11 @@ func findReference(msaIn io.Reader, referenceID string) (fastaio.EncodedFastaRec
 	for s.Scan() {
 		line = s.Bytes()
 
+		// skip empty lines
+		if len(line) == 0 {
+			continue
+		}
+
 		if first {
 
 			if line[0] != '>' {
@@ -303,6 +308,9 @@ func findReference(msaIn io.Reader, referenceID string) (fastaio.EncodedFastaRec
 			}
 
 			description = string(line[1:])
+			if len(strings.Fields(description)) == 0 {
+				return fastaio.EncodedFastaRecord{}, errors.New("badly formatted fasta file: header line without a sequence ID")
+			}
 			id = strings.Fields(description)[0]
 
 			if id == referenceID {
@@ -326,6 +334,9 @@ func findReference(msaIn io.Reader, referenceID string) (fastaio.EncodedFastaRec
 
 			counter++
 			description = string(line[1:])
+			if len(strings.Fields(description)) == 0 {
+				return fastaio.EncodedFastaRecord{}, errors.New("badly formatted fasta file: header line without a sequence ID")
+			}
 			id = strings.Fields(description)[0]
 			seqBuffer = make([]byte, 0)
 
